@@ -92,7 +92,7 @@ def nontrivial(case, hist):
 PLAN = _drive.Plan(
     "C08", cfg_fn,
     clauses={"tags.*", "retag.*"},
-    ops={"update": 3, "regenerate": 1, "static_request": 1, "index_edit": 1, "empty_request": 1, "retag": 3},
+    ops={"update": 3, "regenerate": 1, "static_request": 1, "index_edit": 2.5, "empty_request": 1, "retag": 3},
     extra_ops={"retag": h_retag},
     n_cases=(400, 3000), n_ops=(3, 6), nontrivial=nontrivial,
     always=(),
